@@ -99,6 +99,9 @@ def strategy_(draw, tier):
         if hier.inside(path, spec['collections']):
             continue
         if draw(st.booleans()):
+            if draw(st.integers(0, 3)) == 0:
+                # an explicit falsy initial value is still a value
+                val = draw(st.sampled_from([0, 0.0, False, '', []]))
             put(initial, list(path), val)
             given[path] = val
     for G in spec['collections']:
@@ -106,6 +109,8 @@ def strategy_(draw, tier):
             entry = {}
             for path, val in tree_leaves(content):
                 if draw(st.booleans()):
+                    if draw(st.integers(0, 3)) == 0:
+                        val = draw(st.sampled_from([0, 0.0, False, '', []]))
                     put(entry, list(path), val)
                     given[tuple(G) + (child,) + path] = val
             put(initial, list(G) + [child], entry)
@@ -271,8 +276,8 @@ def run_case(spec):
                     1 for p in spec['procs'] for v, n in p['W']
                     if tuple(n) == node) > 1:
                 multi += 1
-            if node in given and isinstance(given[node], int):
-                if got != given[node]:
+            if node in given and not isinstance(given[node], dict):
+                if got != given[node] or type(got) != type(given[node]):
                     res.fail('initial', 'node %r holds %r, initial state says '
                              '%r (defaults %r)' % (node, got, given[node],
                                                    sorted(defaults)),
@@ -316,6 +321,22 @@ def run_case(spec):
 def check_composite_states(spec, res, comp):
     init = comp.initial_state()
     dflt = comp.default_state()
+    # a call that passes an explicit initial state through the config must
+    # not change what later calls return
+    nodes = [tuple(n) for p in spec['procs'] for v, n in p['W']][:3]
+    for node in nodes:
+        cfg_state = {}
+        put(cfg_state, list(node), 424242)
+        comp.initial_state({'initial_state': cfg_state})
+        again = comp.initial_state()
+        d = deq(again, init)
+        if d:
+            res.fail('composite.initial_state.leak', 'after initial_state('
+                     '{"initial_state": %r}) a plain initial_state() call '
+                     'returns something else than before: %s' % (cfg_state, d),
+                     'composer.py:initial_state')
+            return
+        res.label('composite.initial_state.repeated')
     placed = {}
     clash = set()
     for p in spec['procs']:
@@ -329,7 +350,8 @@ def check_composite_states(spec, res, comp):
     for node, val in placed.items():
         if node in clash:
             continue
-        want = given.get(node, val) if isinstance(given.get(node), int) else val
+        g = given.get(node, KeyError)
+        want = val if g is KeyError or isinstance(g, dict) else g
         got = getp(init, list(node), KeyError)
         if got != want:
             res.fail('composite.initial_state', 'initial_state() holds %r at '
